@@ -1782,12 +1782,18 @@ type tbCaseConst struct {
 }
 
 type tbArm struct {
-	clause     *ast.CaseClause
+	clause     tbPosHolder // where the arm starts
+	set        bset
 	consts     []tbCaseConst
 	agentCalls map[string]bool // methods invoked on the served agent parameter
 	delegates  bool            // calls x/crypto's agent.ServeAgent
 	isDefault  bool
 }
+
+// tbPosHolder keeps the `clause.Pos()` spelling of the rules that report on an arm.
+type tbPosHolder struct{ pos token.Pos }
+
+func (p tbPosHolder) Pos() token.Pos { return p.pos }
 
 func (a *tbArm) label() string {
 	if a.isDefault {
@@ -1844,98 +1850,99 @@ func tbYubiModel(c *Ctx, rule string) *tbYubi {
 		c.Unresolved(rule, "the YubiAgent parameter of ServeAgent")
 		return nil
 	}
-	// the dispatch: switch <[]byte>[0], in ServeAgent or in a function of the package that ServeAgent hands the
-	// request to (the loop body extracted into a helper)
-	var sws []*ast.SwitchStmt
-	findDispatch := func(fd *ast.FuncDecl) []*ast.SwitchStmt {
-		var out []*ast.SwitchStmt
-		ast.Inspect(fd.Body, func(n ast.Node) bool {
-			sw, ok := n.(*ast.SwitchStmt)
-			if !ok || sw.Tag == nil {
-				return true
-			}
-			ix, ok := tbUnparen(tbLocalDef(p, fd.Body, sw.Tag)).(*ast.IndexExpr)
-			if !ok {
-				return true
-			}
-			if k, ok := tbConstInt(p, ix.Index); !ok || k != 0 {
-				return true
-			}
-			if s, ok := p.TypesInfo.TypeOf(ix.X).Underlying().(*types.Slice); ok && tbIsBasic(s.Elem().Underlying(), types.Uint8) {
-				out = append(out, sw)
-			}
-			return true
-		})
-		return out
-	}
-	sws = findDispatch(y.serve)
-	if len(sws) == 0 {
-		// functions of the package called from ServeAgent's body
-		ast.Inspect(y.serve.Body, func(n ast.Node) bool {
-			call, ok := n.(*ast.CallExpr)
-			if !ok {
-				return true
-			}
-			f := tbCallee(p, call)
-			if f == nil || f.Pkg() != p.Types {
-				return true
-			}
-			hd := tbDecl(p, f)
-			if hd == nil || hd.Body == nil || len(sws) > 0 {
-				return true
-			}
-			if found := findDispatch(hd); len(found) == 1 {
-				// the helper takes over the role of the serving function: its interface parameter is the served agent
-				var ag *types.Var
-				for _, fl := range hd.Type.Params.List {
-					for _, nm := range fl.Names {
-						if v, ok := p.TypesInfo.Defs[nm].(*types.Var); ok && ag == nil && types.Identical(v.Type(), y.agent.Type()) {
-							ag = v
-						}
-					}
-				}
-				if ag != nil {
-					sws, y.serve, y.agent = found, hd, ag
-				}
-			}
-			return true
-		})
-	}
-	if len(sws) != 1 {
-		c.Unresolved(rule, fmt.Sprintf("the `switch req[0]` dispatch of ServeAgent (found %d)", len(sws)))
+	// the dispatch, read off the compiled form: the arm of a code is the set of byte values req[0] can have where the
+	// code's work is done (value-set flow over ServeAgent and its helpers), however the tests are written
+	wire := newWireView(c.w)
+	if wire.serve == nil || wire.flow == nil || wire.rd == nil {
+		c.Unresolved(rule, "ServeAgent and the framed read it serves from (compiled form)")
 		return nil
 	}
-	for _, st := range sws[0].Body.List {
-		cc := st.(*ast.CaseClause)
-		arm := &tbArm{clause: cc, agentCalls: map[string]bool{}, isDefault: cc.List == nil}
-		for _, e := range cc.List {
-			v, ok := tbConstInt(p, e)
-			if !ok {
-				c.Und(rule, "ServeAgent dispatch|constant case labels", c.w.Pos(e.Pos()), "a case label is not an integer constant")
+	flow := wire.flow
+	if flow.tests == 0 {
+		c.Unresolved(rule, "tests of the request's first byte in ServeAgent (found none)")
+		return nil
+	}
+	named := map[int64]*types.Const{}
+	for _, k := range y.consts {
+		if v, ok := tbIntVal(k.Val()); ok {
+			if _, dup := named[v]; !dup {
+				named[v] = k
+			}
+		}
+	}
+	sets := flow.armSets()
+	// an arm: a set that is inclusion-minimal for one of its codes (larger sets are code shared by several arms)
+	isArm := map[bset]bool{}
+	for k := int64(0); k < 256; k++ {
+		for _, s := range minimalFor(sets, k) {
+			isArm[s] = true
+		}
+	}
+	// the default arm: the arm holding the most codes that no test mentions
+	var defSet bset
+	defN := 0
+	for _, s := range sets {
+		if n := s.and(flow.Mentioned.not()).count(); isArm[s] && n > defN {
+			defSet, defN = s, n
+		}
+	}
+	firstPos := func(s bset) token.Pos {
+		best := token.NoPos
+		for _, g := range c.w.Tree(wire.serve) {
+			for _, b := range g.Blocks {
+				if flow.in[b] != s || !effectful(b) {
+					continue
+				}
+				for _, ins := range b.Instrs {
+					if p := ins.Pos(); p.IsValid() && (best == token.NoPos || p < best) {
+						best = p
+					}
+				}
+			}
+		}
+		return best
+	}
+	agentParam := ssa.Value(nil)
+	if len(wire.serve.Params) > 0 {
+		agentParam = wire.serve.Params[0]
+	}
+	for _, s := range sets {
+		if !isArm[s] {
+			continue
+		}
+		arm := &tbArm{clause: tbPosHolder{firstPos(s)}, set: s, agentCalls: map[string]bool{}, isDefault: defN > 0 && s == defSet}
+		if !arm.isDefault {
+			for _, v := range s.list() {
+				k := tbCaseConst{val: v, pos: arm.clause.pos, name: strconv.FormatInt(v, 10)}
+				if o := named[v]; o != nil {
+					k.obj, k.name = o, o.Name()
+				}
+				arm.consts = append(arm.consts, k)
+			}
+		}
+		for _, cv := range wire.treeCalls(wire.serve) {
+			if flow.At(cv) != s {
 				continue
 			}
-			k := tbCaseConst{val: v, pos: e.Pos(), name: strconv.FormatInt(v, 10)}
-			if o := tbConstRef(p, e); o != nil {
-				k.obj, k.name = o, o.Name()
+			if cv.Call.IsInvoke() && agentParam != nil && c.w.canon(wire.serve, cv.Call.Value) == agentParam {
+				arm.agentCalls[cv.Call.Method.Name()] = true
 			}
-			arm.consts = append(arm.consts, k)
-		}
-		for _, s := range cc.Body {
-			ast.Inspect(s, func(n ast.Node) bool {
-				call, ok := n.(*ast.CallExpr)
-				if !ok {
-					return true
-				}
-				if se, ok := tbUnparen(call.Fun).(*ast.SelectorExpr); ok && tbObj(p, se.X) == types.Object(y.agent) {
-					arm.agentCalls[se.Sel.Name] = true
-				}
-				if tbIsFunc(tbCallee(p, call), tbXAgentPath, "ServeAgent") {
-					arm.delegates = true
-				}
-				return true
-			})
+			if calleeName(cv) == tbXAgentPath+".ServeAgent" {
+				arm.delegates = true
+			}
 		}
 		y.arms = append(y.arms, arm)
+	}
+	// the served agent is used only inside the arms
+	for _, cv := range wire.treeCalls(wire.serve) {
+		isAgent := cv.Call.IsInvoke() && agentParam != nil && c.w.canon(wire.serve, cv.Call.Value) == agentParam
+		if !isAgent && calleeName(cv) != tbXAgentPath+".ServeAgent" {
+			continue
+		}
+		if s := flow.At(cv); !isArm[s] {
+			c.Bad(rule, "ServeAgent dispatch|the served agent is invoked only in the arm of a code", c.w.Pos(cv.Pos()),
+				fmt.Sprintf("%s is invoked where the request code can be any of %d values and no single arm is selected", shortName(calleeName(cv)), s.count()))
+		}
 	}
 	// the client type: implements the interface and holds a net.Conn
 	if iface, ok := y.agent.Type().Underlying().(*types.Interface); ok {
